@@ -54,6 +54,7 @@ type replGen struct {
 	parents  []string // classes with a method `who: Int` that have (or may get) subclasses
 	subs     []string // "Parent:Child" pairs, the child overrides who
 	ghostUse []string // methods a rejected input tried to import with using
+	aliased  []string // "Parent:Child" pairs whose parent got `alias aka who` in a later input
 }
 
 func (g *replGen) fresh(prefix string) string {
@@ -94,18 +95,39 @@ var replThemes = map[string][]int{
 	"closures": {12, 13, 44, 44, 45, 45, 46, 46, 15, 16, 19, 20, 28},
 	"typedefs": {47, 47, 48, 48, 49, 49, 50, 50, 51, 10, 17, 18},
 	"mixins":   {52, 53, 53, 54, 54, 55, 55, 24, 25, 26, 28, 17},
-	"inherit":  {56, 56, 57, 57, 58, 58, 24, 25, 26, 27, 28, 17},
+	"inherit":  {56, 56, 57, 57, 58, 58, 61, 62, 24, 25, 26, 27, 28, 17},
 	"rejusing": {39, 39, 59, 59, 60, 60, 40, 42, 17},
 }
 
 func (g *replGen) next() string {
 	pool := g.pool
 	if len(pool) == 0 {
-		for k := 0; k < 61; k++ {
+		for k := 0; k < 63; k++ {
 			pool = append(pool, k)
 		}
 	}
 	switch k := pool[g.r.Intn(len(pool))]; {
+	case k == 61:
+		// an alias of a method that an earlier input compiled
+		if len(g.subs) > 0 {
+			pr := Pick(g.r, g.subs)
+			dup := false
+			for _, a := range g.aliased {
+				dup = dup || strings.HasPrefix(a, strings.SplitN(pr, ":", 2)[0]+":")
+			}
+			if !dup {
+				g.aliased = append(g.aliased, pr)
+				return fmt.Sprintf("class %s\n  alias aka who\nend", strings.SplitN(pr, ":", 2)[0])
+			}
+		}
+		return fmt.Sprintf("println \"T:%d:lit\"", g.n)
+	case k == 62:
+		// the alias called through the parent type on an instance of the subclass (dynamic dispatch)
+		if len(g.aliased) > 0 {
+			pr := strings.SplitN(Pick(g.r, g.aliased), ":", 2)
+			return fmt.Sprintf("def aka_of%d(x: %s): Int\n  x.aka\nend\nprintln \"T:%d:${aka_of%d(%s())} ${aka_of%d(%s())}\"", g.n, pr[0], g.n, g.n, pr[1], g.n, pr[0])
+		}
+		return fmt.Sprintf("println \"T:%d:lit\"", g.n)
 	case k == 56:
 		// a parent class and a function that calls a method through a parent-typed parameter
 		pc := g.fresh("Kp")
@@ -422,7 +444,10 @@ func (*c27Engine) Generate(seed uint64, tier string) *Case {
 			})
 		}
 		var script []string
-		switch r.Intn(12) {
+		switch r.Intn(13) {
+		case 12:
+			// an alias of a method compiled by an earlier input, called dynamically
+			script = []string{"class Sqa\n  def who: Int\n    1\n  end\nend", "class Sqb < Sqa\n  def own: Int\n    2\n  end\nend", "class Sqa\n  alias aka who\nend", "def saka(x: Sqa): Int\n  x.aka\nend\nprintln \"T:s19:${saka(Sqb())} ${saka(Sqa())}\""}
 		case 11:
 			// a caller through a parent-typed parameter is compiled after a rejected input: the
 			// subclass (known before the rejected input) must still be dispatched to
